@@ -7,17 +7,27 @@ From Verif Require Import Base.Bytes Base.Wire Model.YamlEdit Src.SrcYamlEdit.
 Definition params_of_src : params :=
   mk_params set_copies_content set_copies_kind set_copies_tag set_copies_value
             set_style_code set_moves_line_comment fixes_key_line_comment rm_handles_imports
+            rm_guards_empty_path rm_values_from_root
             delete_empty_code delete_missing_code.
 
 (* ---- comparison of trees up to presentation ----
-   scalars: effective tag, value, comments; collections: kind, comments, children (their own tag and style
-   are presentation: "{}" and a block mapping are the same mapping) *)
+   scalars: effective tag, value, line comment; collections: kind, line comment, children (their own tag and style
+   are presentation: "{}" and a block mapping are the same mapping).
+
+   Head and foot comments are compared at the level of the TEXT, not of the node they hang on: yaml.v3 decides at
+   read time which node a free-standing comment belongs to (a comment block after the last entry of a nested
+   collection is the foot comment of the innermost last key; after an empty "{}" it is the head comment of the next
+   key; the blank line after a head comment is not written back), so the same text is read back with the comment on
+   another node after an unrelated edit.  What does not depend on that choice is the ORDER of the comment lines
+   relative to the keys and scalars of the definition: [tokens] is that sequence (document order; one token per key,
+   per scalar, per non-empty comment line), and two trees are the same if they agree node by node without head and
+   foot comments AND have the same token sequence. *)
 Fixpoint norm (n : node) : node :=
   match n with
   | Node k tag st v h l f c =>
     match k with
-    | KScalar => Node KScalar (eff_tag tag st) 0 v h l f []
-    | KSeq | KMap | KDoc => Node k "" 0 "" h l f (map norm c)
+    | KScalar => Node KScalar (eff_tag tag st) 0 v "" l "" []
+    | KSeq | KMap | KDoc => Node k "" 0 "" "" l "" (map norm c)
     | _ => Node k "" 0 "" "" "" "" []
     end
   end.
@@ -35,7 +45,159 @@ Fixpoint node_eqb (a b : node) : bool :=
             end) c1 c2
   end.
 
+(* same nodes, head and foot comments aside *)
 Definition same_tree (a b : node) : bool := node_eqb (norm a) (norm b).
+
+Inductive tok := TK (s : string) | TC (s : string) | THole.
+
+Definition tok_eqb (a b : tok) : bool :=
+  match a, b with
+  | TK x, TK y | TC x, TC y => String.eqb x y
+  | THole, THole => true
+  | _, _ => false
+  end.
+
+Fixpoint toks_eqb (a b : list tok) : bool :=
+  match a, b with
+  | [], [] => true
+  | x :: a', y :: b' => tok_eqb x y && toks_eqb a' b'
+  | _, _ => false
+  end.
+
+(* the non-empty lines of a comment, last line first in [acc] *)
+Fixpoint comment_lines_acc (s : string) (cur : string) (acc : list string) : list string :=
+  match s with
+  | EmptyString => if String.eqb cur "" then acc else cur :: acc
+  | String ch r =>
+      if Ascii.eqb ch "010"%char then comment_lines_acc r "" (if String.eqb cur "" then acc else cur :: acc)
+      else comment_lines_acc r (cur +++ String ch EmptyString) acc
+  end.
+
+Definition cm (s : string) : list tok := map TC (rev (comment_lines_acc s "" [])).
+
+Fixpoint tokens (n : node) : list tok :=
+  match n with
+  | Node k _ _ v h _ f c =>
+    cm h ++
+    match k with
+    | KScalar | KAlias => [TK v]
+    | KMap => (fix go (l : list node) : list tok :=
+                 match l with
+                 | kn :: vn :: r => cm (nhc kn) ++ [TK (nvalue kn)] ++ tokens vn ++ cm (nfc kn) ++ go r
+                 | _ => []
+                 end) c
+    | KSeq | KDoc => (fix go (l : list node) : list tok :=
+                        match l with x :: r => tokens x ++ go r | [] => [] end) c
+    | KZero => []
+    end ++ cm f
+  end.
+
+Definition same_full (a b : node) : bool := same_tree a b && toks_eqb (tokens a) (tokens b).
+
+Definition is_tc (t : tok) : bool := match t with TC _ => true | _ => false end.
+
+Fixpoint leading_comments (l : list tok) : list tok :=
+  match l with t :: r => if is_tc t then t :: leading_comments r else [] | [] => [] end.
+
+Definition trailing_comments (l : list tok) : list tok :=
+  rev_append (leading_comments (rev_append l [])) [].
+
+(* the token sequence with the subtree addressed by [p] replaced by one hole (without a hole if [p] leads nowhere).
+   The comments that sit at the two ends of the subtree stay outside the hole: on the side of the definition BEFORE
+   the edit ([own] = true) the addressed node's own head and foot comment, which Set keeps; on the side AFTER the edit
+   every comment line the subtree starts and ends with (yaml.v3 may have read the kept foot comment back as the foot
+   comment of the last entry of the new value). *)
+Fixpoint tokens_hole (own : bool) (p : path) (n : node) : list tok :=
+  match p with
+  | [] => if own then cm (nhc n) ++ [THole] ++ cm (nfc n)
+          else leading_comments (tokens n) ++ [THole] ++ trailing_comments (tokens n)
+  | a :: p' =>
+    match n with
+    | Node k _ _ v h _ f c =>
+      cm h ++
+      match k, a with
+      | KMap, AKey key =>
+          (fix go (l : list node) (hit : bool) : list tok :=
+             match l with
+             | kn :: vn :: r =>
+                 let here := negb hit && String.eqb (nvalue kn) key in
+                 cm (nhc kn) ++ [TK (nvalue kn)] ++ (if here then tokens_hole own p' vn else tokens vn)
+                 ++ cm (nfc kn) ++ go r (hit || here)
+             | _ => []
+             end) c false
+      | KSeq, AIdx i =>
+          (fix go (l : list node) (j : Z) : list tok :=
+             match l with
+             | x :: r => (if (j =? i)%Z then tokens_hole own p' x else tokens x) ++ go r (j + 1)%Z
+             | [] => []
+             end) c 0%Z
+      | _, _ => tokens (Node k "" 0 v "" "" "" c)
+      end ++ cm f
+    end
+  end.
+
+(* the token sequence without the entry (key, comments and value) / the element addressed by [p] *)
+Fixpoint tokens_drop (p : path) (n : node) : list tok :=
+  match p with
+  | [] => tokens n
+  | a :: p' =>
+    match n with
+    | Node k _ _ v h _ f c =>
+      cm h ++
+      match k, a with
+      | KMap, AKey key =>
+          (fix go (l : list node) (hit : bool) : list tok :=
+             match l with
+             | kn :: vn :: r =>
+                 let here := negb hit && String.eqb (nvalue kn) key in
+                 (if here then
+                    match p' with
+                    | [] => []
+                    | _ => cm (nhc kn) ++ [TK (nvalue kn)] ++ tokens_drop p' vn ++ cm (nfc kn)
+                    end
+                  else cm (nhc kn) ++ [TK (nvalue kn)] ++ tokens vn ++ cm (nfc kn))
+                 ++ go r (hit || here)
+             | _ => []
+             end) c false
+      | KSeq, AIdx i =>
+          (fix go (l : list node) (j : Z) : list tok :=
+             match l with
+             | x :: r => (if (j =? i)%Z then match p' with [] => [] | _ => tokens_drop p' x end else tokens x)
+                         ++ go r (j + 1)%Z
+             | [] => []
+             end) c 0%Z
+      | _, _ => tokens (Node k "" 0 v "" "" "" c)
+      end ++ cm f
+    end
+  end.
+
+Fixpoint is_subseq (a b : list tok) : bool :=
+  match b with
+  | [] => match a with [] => true | _ => false end
+  | y :: b' =>
+      match a with
+      | [] => true
+      | x :: a' => if tok_eqb x y then is_subseq a' b' else is_subseq a b'
+      end
+  end.
+
+(* a token sequence with a hole, cut into: everything up to the last key / scalar before the hole, the comment lines
+   directly before the hole, those directly after it, and the rest *)
+Fixpoint split_at_hole (l : list tok) (pre_rev lead_rev : list tok) : list tok * list tok * list tok * list tok :=
+  match l with
+  | [] => (rev_append (lead_rev ++ pre_rev) [], [], [], [])
+  | THole :: r => (rev_append pre_rev [], rev_append lead_rev [], leading_comments r,
+                   skipn (length (leading_comments r)) r)
+  | TC c :: r => split_at_hole r pre_rev (TC c :: lead_rev)
+  | t :: r => split_at_hole r (t :: lead_rev ++ pre_rev) []
+  end.
+
+(* same sequences around the hole; the comment lines next to the hole are all still there, in order (the edit may
+   add some: the line comment of a scalar replaced by a block collection becomes the head comment of its first entry) *)
+Definition holes_agree (b a : list tok) : bool :=
+  let '(pre_b, lead_b, trail_b, rest_b) := split_at_hole b [] [] in
+  let '(pre_a, lead_a, trail_a, rest_a) := split_at_hole a [] [] in
+  toks_eqb pre_b pre_a && toks_eqb rest_b rest_a && is_subseq lead_b lead_a && is_subseq trail_b trail_a.
 
 Fixpoint val_eqb (a b : val) : bool :=
   match a, b with
@@ -98,7 +260,8 @@ Record stepobs := {
 
 Inductive mode := MApi | MCli.
 
-Record case := { c_mode : mode; c_doc0 : node; c_doc0rt : node; c_steps : list stepobs }.
+(* [c_reread]: every command starts from the stored TEXT (the CLI always does; the api mode when asked to) *)
+Record case := { c_mode : mode; c_reread : bool; c_doc0 : node; c_doc0rt : node; c_steps : list stepobs }.
 
 (* ---- the model's step ---- *)
 Definition path_eqb (p q : path) : bool := (length p =? length q)%nat && is_prefix p q.
@@ -162,7 +325,7 @@ Definition op_parsed (o : opin) : option path :=
 Definition op_paths_ok (o : opin) : bool :=
   match o with ISet i p _ _ _ => opt_path_ok i p | IRm i p => opt_path_ok i p end.
 
-Fixpoint mismatch_steps (pr : params) (m : mode) (t : node) (l : list stepobs) : bool :=
+Fixpoint mismatch_steps (pr : params) (m : mode) (reread : bool) (t : node) (l : list stepobs) : bool :=
   match l with
   | [] => false
   | s :: r =>
@@ -171,7 +334,7 @@ Fixpoint mismatch_steps (pr : params) (m : mode) (t : node) (l : list stepobs) :
       negb (op_paths_ok (so_op s))
       || negb (status_eqb (result_status res) (so_status s))
       || negb (Bool.eqb perr (so_patherr s)) || negb (Bool.eqb verr (so_valerr s))
-      || negb (same_tree t' (so_after s))
+      || negb (same_full t' (so_after s))
       || match op_parsed (so_op s) with
          | Some p => so_get_seen s && negb (gres_same (yget (get_path m p) t') (so_get s))
          | None => false
@@ -185,15 +348,19 @@ Fixpoint mismatch_steps (pr : params) (m : mode) (t : node) (l : list stepobs) :
              end
          | _, _ => false
          end
-      || match res with Panic => false | _ => mismatch_steps pr m t' r end
+      (* the next command starts from what was stored and read back, or (api mode, in memory) from the tree itself *)
+      || match res with
+         | Panic => false
+         | _ => mismatch_steps pr m reread (if reread then so_after s else t') r
+         end
   end.
 
 (* a definition whose initial text yaml.v3 itself does not write back to an equal tree (comments re-attached) is
    outside the domain: the implementation continues from the re-read text *)
-Definition stable (c : case) : bool := same_tree (c_doc0 c) (c_doc0rt c).
+Definition stable (c : case) : bool := same_full (c_doc0 c) (c_doc0rt c).
 
 Definition mismatch (c : case) : bool :=
-  stable c && mismatch_steps params_of_src (c_mode c) (c_doc0 c) (c_steps c).
+  stable c && mismatch_steps params_of_src (c_mode c) (c_reread c) (c_doc0 c) (c_steps c).
 
 (* ---- the specification, on the implementation's observations only ---- *)
 Definition cmts_eqb (a b : node) : bool :=
@@ -233,8 +400,24 @@ Definition frame_set (fp : path) (before after : node) : bool :=
 Definition frame_rm (fp : path) (before after : node) : bool :=
   forallb (fun q => related fp q || gres_same (yget (shift_del fp q) after) (yget q before)) (all_paths before).
 
-(* the nodes above the edited one keep their head and foot comments (the line comment of a key on the path may move
-   to its value, on the same line of the text); a mapping keeps the names of its keys in order — a set may append
+(* head and foot comments: the comment lines of the definition stay where they are relative to its keys and scalars.
+   set: with the edited node replaced by a hole on both sides the token sequences agree ([holes_agree]; the path
+   existed), or the old sequence is a subsequence of the new one (keys were created);  rm: the old sequence without
+   the removed entry is the new one. *)
+Definition tokens_set_ok (fp : path) (before after : node) : bool :=
+  match yget fp before with
+  | GFound _ => holes_agree (tokens_hole true fp before) (tokens_hole false fp after)
+  | _ => is_subseq (tokens before) (tokens after)
+  end.
+
+Definition tokens_rm_ok (fp : path) (before after : node) : bool :=
+  match yget fp before with
+  | GFound _ => toks_eqb (tokens_drop fp before) (tokens after)
+  | _ => toks_eqb (tokens before) (tokens after)
+  end.
+
+(* the nodes above the edited one (the line comment of a key on the path may move
+   to its value, on the same line of the text): a mapping keeps the names of its keys in order — a set may append
    one key, an rm removes only the addressed key from its parent — and every key other than the one on the path
    is the same node, comments included; a sequence keeps its length up to the appended / removed element *)
 Definition hf_eqb (a b : node) : bool := String.eqb (nhc a) (nhc b) && String.eqb (nfc a) (nfc b).
@@ -275,7 +458,6 @@ Definition ancestors_set (fp : path) (before after : node) : bool :=
     negb (proper_prefix q fp) ||
     match yget q before, yget q after with
     | GFound m, GFound m' =>
-        hf_eqb m m' &&
         match nkind m with
         | KMap => kind_eqb (nkind m') KMap
                   && names_plus1 (key_names (ncontent m')) (key_names (ncontent m))
@@ -293,7 +475,7 @@ Definition ancestors_rm (fp : path) (before after : node) : bool :=
     negb (proper_prefix q fp) ||
     match yget q before, yget q after with
     | GFound m, GFound m' =>
-        hf_eqb m m' && kind_eqb (nkind m) (nkind m') &&
+        kind_eqb (nkind m) (nkind m') &&
         let parent := (length q =? pred (length fp))%nat in
         match nkind m, (if parent then last_acc fp else None) with
         | KMap, Some (AKey k) =>
@@ -313,7 +495,7 @@ Definition spec_fail_step (m : mode) (before : node) (s : stepobs) : bool :=
   let after := so_after s in
   match so_status s with
   | SPanic | SBroken => true
-  | SErr _ => negb (same_tree before after)          (* a refused command leaves the definition alone *)
+  | SErr _ => negb (same_full before after)          (* a refused command leaves the definition alone *)
   | SOk =>
       negb (wf_root after) ||
       match so_op s with
@@ -321,20 +503,34 @@ Definition spec_fail_step (m : mode) (before : node) (s : stepobs) : bool :=
           let fp := the_path m true p in
           let want := denote (prep_value (match m with MCli => secret | MApi => false end) argtext v0) in
           negb (match so_get s with GFound g => val_eqb (denote g) want | _ => false end)
+          (* the property's first clause on the real command: `env get <path>` after `env set <path> <value>`
+             prints that value (observed whenever the stored definition loads) *)
+          || match m, so_cliget s with
+             | MCli, Some (GFound g) => negb (val_eqb (denote g) want)
+             | MCli, Some _ => true
+             | _, _ => false
+             end
           || negb (frame_set fp before after) || negb (ancestors_set fp before after)
+          || negb (tokens_set_ok fp before after)
+      | IRm _ (Some []) =>
+          (* an empty path addresses nothing: a command that accepts it changes nothing *)
+          negb (same_full before after)
       | IRm _ (Some p) =>
           let fp := the_path m false p in
           (* in CLI mode, a definition without "values" (or an empty path answered by a no-op) is left alone *)
           match yget (removelast fp) before with
           | GFound _ =>
               negb (frame_rm fp before after) || negb (ancestors_rm fp before after)
+              || negb (tokens_rm_ok fp before after)
               || match last_acc fp, m with
                  | Some (AKey _), MApi => negb (match so_get s with GMissing => true | _ => false end)
                  | Some (AKey _), MCli =>
                      negb (match yget fp after with GMissing => true | _ => false end)
+                     (* ... and `env get <path>` prints nothing *)
+                     || match so_cliget s with Some GMissing | None => false | Some _ => true end
                  | _, _ => false
                  end
-          | _ => negb (same_tree before after)
+          | _ => negb (same_full before after)
           end
       | _ => true          (* ok although the path or the value was refused by its parser *)
       end
@@ -360,7 +556,7 @@ Definition spec_fail_known (c : case) : bool := spec_fail c && known c.
 Fixpoint changed_steps (before : node) (l : list stepobs) : bool :=
   match l with
   | [] => false
-  | s :: r => negb (same_tree before (so_after s)) || changed_steps (so_after s) r
+  | s :: r => negb (same_full before (so_after s)) || changed_steps (so_after s) r
   end.
 
 Definition nontrivial (c : case) : bool := input_ok c && changed_steps (c_doc0 c) (c_steps c).
@@ -483,10 +679,11 @@ Definition decode_step (x : sexp) : option stepobs :=
 Definition decode (x : sexp) : option case :=
   match x with
   | SList [Atom "c15"; Atom md; d0; d0rt; SList steps] =>
-      match (if String.eqb md "api" then Some MApi else if String.eqb md "cli" then Some MCli else None),
+      match (if String.eqb md "api" then Some (MApi, true) else if String.eqb md "apimem" then Some (MApi, false)
+             else if String.eqb md "cli" then Some (MCli, true) else None),
             decode_node d0, decode_node d0rt, map_opt decode_step steps with
-      | Some m, Some d0, Some d0rt, Some steps =>
-          Some {| c_mode := m; c_doc0 := d0; c_doc0rt := d0rt; c_steps := steps |}
+      | Some (m, rr), Some d0, Some d0rt, Some steps =>
+          Some {| c_mode := m; c_reread := rr; c_doc0 := d0; c_doc0rt := d0rt; c_steps := steps |}
       | _, _, _, _ => None
       end
   | _ => None
